@@ -572,9 +572,12 @@ func checkClientErrorMapping(c *Ctx) {
 						// status >= 400 returns the error
 						okRet := false
 						ast.Inspect(fd.Body, func(n ast.Node) bool {
-							if ifs, ok := n.(*ast.IfStmt); ok && types.ExprString(ifs.Cond) == "resp.StatusCode >= 400" {
+							if ifs, ok := n.(*ast.IfStmt); ok && statusAtLeast400(ifs.Cond) && len(ifs.Body.List) > 0 {
 								if ret, ok := ifs.Body.List[len(ifs.Body.List)-1].(*ast.ReturnStmt); ok && len(ret.Results) == 2 {
-									okRet = types.ExprString(ret.Results[0]) == "nil" && strings.HasPrefix(types.ExprString(ret.Results[1]), "c.handleErrorResponse(resp.StatusCode, respBody")
+									if call, ok := ast.Unparen(ret.Results[1]).(*ast.CallExpr); ok && len(call.Args) >= 2 {
+										okRet = types.ExprString(ret.Results[0]) == "nil" && strings.HasSuffix(types.ExprString(call.Fun), ".handleErrorResponse") &&
+											strings.HasSuffix(types.ExprString(call.Args[0]), ".StatusCode")
+									}
 								}
 							}
 							return true
@@ -738,4 +741,21 @@ func violationFieldNonEmpty(c *Ctx, ep *EmittedPkg, rule string) {
 		})
 	}
 	r.Check(n > 0, rule, "violation literals with a computed field path found", "", "no FieldViolation literal with a locally computed field was found in the runtime")
+}
+
+// statusAtLeast400: `<x>.StatusCode >= 400`, `>= http.StatusBadRequest`, `> 399` (emitted code is parsed, not
+// type-checked, so the spellings of the constant are enumerated).
+func statusAtLeast400(e ast.Expr) bool {
+	be, ok := ast.Unparen(e).(*ast.BinaryExpr)
+	if !ok || !strings.HasSuffix(types.ExprString(be.X), ".StatusCode") {
+		return false
+	}
+	y := types.ExprString(be.Y)
+	switch be.Op {
+	case token.GEQ:
+		return y == "400" || y == "http.StatusBadRequest"
+	case token.GTR:
+		return y == "399"
+	}
+	return false
 }
